@@ -155,6 +155,19 @@ class Extractor {
     S += ")";
     if (const auto *MD = dyn_cast<CXXMethodDecl>(FD))
       if (MD->isConst()) S += " const";
+    // a specialization over a closure type: clang names the type by its source location, which is the same for
+    // every instantiation of the enclosing template; add the closure's own (instantiation-aware) key
+    if (const auto *TA = FD->getTemplateSpecializationArgs()) {
+      for (const TemplateArgument &A : TA->asArray()) {
+        if (A.getKind() != TemplateArgument::Type) continue;
+        const auto *RD = A.getAsType()->getAsCXXRecordDecl();
+        if (RD && RD->isLambda())
+          if (const CXXMethodDecl *Op = RD->getLambdaCallOperator()) {
+            std::string Ctx = lambdaCtx(Op);
+            if (!Ctx.empty()) S += " [closure" + Ctx + "]";
+          }
+      }
+    }
     return S;
   }
 
@@ -249,7 +262,9 @@ class Extractor {
     if (isElem(S)) {
       const Expr *E = dyn_cast<Expr>(strip(S));
       json::Object O{{"k", "ref"}, {"id", sid(S)}};
-      if (E) tryFold(E, O);
+      // the unstripped node first: the lvalue-to-rvalue conversion of a constexpr variable folds, the bare reference does not
+      const Expr *E0 = dyn_cast<Expr>(S);
+      if (!(E0 && tryFold(E0, O)) && E) tryFold(E, O);
       return std::move(O);
     }
     return ser(S);
